@@ -115,6 +115,47 @@ NegProg(n, al) ==
 NegCases == {[n |-> n, al |-> al] : n \in NegPool, al \in {"c", "arr", "st", "par"}}
 NegSeq == SetToSeq(NegCases)
 
+\* FreshCells: `mut' creates a new cell EVERY time it is evaluated — in a function called twice, in a loop body,
+\* typed (`mut int e') and untyped (`mut e') form, with a literal, a name bound to a literal and a hidden initial value
+MutForm(u, e) == IF u THEN MutU(WInt, e) ELSE MutE(WInt, e)
+InitOf(ik) == CASE ik = "lit" -> I(10) [] ik = "name" -> V("k0") [] ik = "hidden" -> Hide(WInt, I(10)) [] ik = "neg" -> I(-1) [] ik = "expr" -> Bin("+", I(4), I(6))
+FreshProg(shape, u, ik) ==
+  <<Set("k0", I(10))>> \o
+  CASE shape = "factory" ->
+         <<FnDecl("mk", <<>>, WMut(WInt), <<Ret(MutForm(u, InitOf(ik)))>>),
+           Set("a", CallE(V("mk"), <<>>)), Set("b", CallE(V("mk"), <<>>)), Asg("+=", V("a"), I(5)),
+           TupE(<<Deref(V("a")), Deref(V("b"))>>)>>
+    [] shape = "factory-arg" ->
+         <<FnDecl("mk", <<P("unused", WInt)>>, WMut(WInt), <<Set("c", MutForm(u, InitOf(ik))), Asg("+=", V("c"), V("unused")), Ret(V("c"))>>),
+           Set("a", CallE(V("mk"), <<I(1)>>)), Set("b", CallE(V("mk"), <<I(2)>>)),
+           TupE(<<Deref(V("a")), Deref(V("b"))>>)>>
+    [] shape = "loop" ->
+         <<Set("n", MutE(WInt, I(0))), Set("s", MutE(WInt, I(0))),
+           While(Bin("<", Deref(V("n")), I(3)),
+                 Block(<<Asg("+=", V("n"), I(1)), Set("c", MutForm(u, InitOf(ik))), Asg("+=", V("c"), Deref(V("n"))), Asg("+=", V("s"), Deref(V("c")))>>)),
+           Deref(V("s"))>>
+    [] shape = "closure" ->
+         <<Set("mk", FnE(<<>>, WFn(<<>>, WInt), <<Set("c", MutForm(u, InitOf(ik))),
+                                                  Ret(FnE(<<>>, WInt, <<Asg("+=", V("c"), I(1)), Ret(Deref(V("c")))>>))>>)),
+           Set("f", CallE(V("mk"), <<>>)), Set("g", CallE(V("mk"), <<>>)),
+           TupE(<<CallE(V("f"), <<>>), CallE(V("f"), <<>>), CallE(V("g"), <<>>)>>)>>
+    [] shape = "array" ->
+         <<Set("cs", ArrE(<<MutForm(u, InitOf(ik)), MutForm(u, InitOf(ik))>>)), Asg("+=", At(V("cs"), I(0)), I(1)),
+           TupE(<<Deref(At(V("cs"), I(0))), Deref(At(V("cs"), I(1)))>>)>>
+FreshExpected(shape, x) ==
+  CASE shape = "factory" -> TupV(<<IntV(x + 5), IntV(x)>>)
+    [] shape = "factory-arg" -> TupV(<<IntV(x + 1), IntV(x + 2)>>)
+    [] shape = "loop" -> IntV(3 * x + 6)
+    [] shape = "closure" -> TupV(<<IntV(x + 1), IntV(x + 2), IntV(x + 1)>>)
+    [] shape = "array" -> TupV(<<IntV(x + 1), IntV(x)>>)
+FreshSeq == SetToSeq({[shape |-> sh, u |-> u, ik |-> ik] :
+                        sh \in {"factory", "factory-arg", "loop", "closure", "array"}, u \in BOOLEAN, ik \in {"lit", "name", "hidden", "neg", "expr"}})
+FreshOut(i) == Outcome(Run(FreshProg(FreshSeq[i].shape, FreshSeq[i].u, FreshSeq[i].ik), 2000))
+FreshCells == \A i \in 1..Len(FreshSeq) :
+  LET o == FreshOut(i) IN
+  \/ (o.status = "value" /\ o.v = FreshExpected(FreshSeq[i].shape, IF FreshSeq[i].ik = "neg" THEN -1 ELSE 10))
+  \/ (PrintT(<<"FRESHCELLS", FreshSeq[i], o>>) /\ FALSE)
+
 WatchNames == <<"c", "other", "s0", "y1", "s1", "y2", "s2">>
 HSeq == SetToSeq(Hists)
 N == Len(HSeq)
@@ -152,7 +193,11 @@ Emit ==
   /\ TLCGet("stats").distinct > 0
   /\ ndJsonSerialize(IOEnv.VERIF_OUT \o "/c13_cases.ndjson",
         [i \in 1..N |-> [id |-> "c13-" \o ToString(i), suite |-> "c13", prog |-> Prog(HSeq[i]), exp |-> Out(i),
-                         watch |-> W(i)]])
+                         watch |-> W(i)]]
+        \o [i \in 1..Len(FreshSeq) |-> [id |-> "c13-fresh-" \o FreshSeq[i].shape \o (IF FreshSeq[i].u THEN "-untyped-" ELSE "-typed-") \o FreshSeq[i].ik,
+                                        suite |-> "c13", prog |-> FreshProg(FreshSeq[i].shape, FreshSeq[i].u, FreshSeq[i].ik),
+                                        exp |-> FreshOut(i), watch |-> <<>>]])
+  /\ FreshCells
   /\ ndJsonSerialize(IOEnv.VERIF_OUT \o "/c13_neg_cases.ndjson",
         [i \in 1..Len(NegSeq) |-> [id |-> "c13-neg-" \o ToString(i), suite |-> "c13", negative |-> TRUE,
                                    prog |-> NegProg(NegSeq[i].n, NegSeq[i].al),
